@@ -63,7 +63,9 @@ def seeded_table():
         n1 += 1 if ex == 1 else 0
         clean = lambda t, n: (str(t)[:n] + ("…" if len(str(t)) > n else "")).replace("|", "/").replace("\n", " ")
         rows.append(f"| {sid} | {clean(what, 200)} | {clean(needs, 130)} | {first} | exit {ex} | {'; '.join(dict.fromkeys(by[:2])).replace('|', '/')} |")
-    rows.append(f"\n{n1} of {n} seeded changes end in `VIOLATION` (exit 1) with the current checks.")
+    miss = sum(1 for v in hist.values() if not v.startswith("exit 1"))
+    rows.append(f"\n{n1} of {n} seeded changes end in `VIOLATION` (exit 1) with the current checks; at first run {miss} of {len(hist)} were missed (exit 0) or "
+                f"undecided only (exit 2).")
     return "\n".join(rows)
 
 
